@@ -2,7 +2,8 @@
 R1 clamp / leaky_clamp by enumeration of the orderings of (input, min, max); R2 constructor options are used and documented
 options exist; R3 Whalley-Wilmott forward/width; R4 svi_variance, bilerp, box_muller, realized_volatility.
 Added after the seeded-defect rounds: R5 float bounds are not rounded to the default dtype; R6 module forwards keep no state; gamma is any real number in the width identity.
-Third round: R7 Clamp / LeakyClamp / SVIVariance / WhalleyWilmott keep the configuration they were created with."""
+Third round: R7 Clamp / LeakyClamp / SVIVariance / WhalleyWilmott keep the configuration they were created with.
+Round 7: R3 the band of WhalleyWilmott.forward is compared with the documented half-width formula itself, whether or not it goes through ww_width."""
 import ast
 import re
 
